@@ -7,14 +7,15 @@ from vlib.props import c13
 PLUGINS = ["contains", "unique", "set", "union", "intersect", "filter", "takewhile", "all", "any"]
 OPS = {"contains", "unique", "set", "unionl", "intersectl", "unionm", "intersectm", "filter", "takewhile", "all", "any"}
 
-RULE = ("18 element types (==-comparable and not: basics incl. +0/-0 floats, named basics, comparable struct, pointers to structs "
+RULE = ("22 element types (==-comparable and not: basics incl. +0/-0 floats, named basics, comparable struct, pointers to structs "
         "incl. recursive and imported, slices, struct with pointers) and 6 key types x the boundary-biased list pool of C13 (nil, "
         "empty, duplicates fresh and aliased, Equal-but-not-identical variants, nil elements, random lists); contains with present / "
         "absent / Equal-but-not-identical / single-mutation items; unique and set on every list; union / intersect on 81 + random "
         "ordered list pairs and on all ordered pairs of key sets (nil, empty, singletons, both insertion orders, +0 vs -0 keys, the "
         "same map twice); filter / takewhile / all / any with scripted predicates (all 2^n scripts for n <= 3, else all-true, "
         "all-false, alternating, late first false, exhausted, random) and the call log in the answer; distinct = distinct op lines "
-        "whose containers hold >= 2 elements in total")
+        "whose containers hold >= 2 elements in total; every answer of an op that returns a slice carries an alias flag (result shares the "
+        "backing array of an input / fresh) next to the input as observed after the call")
 
 def run(rep):
     c13.run_family(rep, "C14", PLUGINS, OPS, RULE)
